@@ -1,13 +1,15 @@
 """C06 — a compiled dictionary contains exactly its source entries."""
 import os, sys, json, math, struct, re, shutil, glob, time
 import vlib
+from checks import c06_ext as X
 
 META = {
     "technique": "Lean 4 theorems over a model of collector / vocabulary / four-level index / reverse table / mmap arena + "
                  "differential correspondence with the real DictCompiler on generated *.dict.yaml sources",
     "level": "proof",
     "level_text": ("Theorems C06.enumerate_build_perm / no_foreign_code / weight_sorted / original_order / reverse_exact / "
-                   "find_node_correct (+ compile_enumerate_perm end to end from source rows, arena theorems allocate_disjoint, "
+                   "find_node_correct (+ compile_enumerate_perm end to end from source rows, pack_syllabary_fixed / pack_is_treatment / "
+                   "pack_enumerate_perm for a pack's table over the fixed primary syllabary, arena theorems allocate_disjoint, "
                    "allocate_aligned, grow_preserves, offsetptr_get_set): for every list of source rows, any syllabary and any "
                    "sorting routine that returns a weight-sorted permutation, the full enumeration of the built index is a "
                    "permutation of the treated source rows with index code ++ extra code = the row's code, each code's entries "
@@ -16,14 +18,20 @@ META = {
                    "(row parser, collector, LocateEntries paging, BuildIndex, walk, reverse table, stod weight parsing) is run "
                    "against the real DictCompiler + Table::Load + a raw walk of the mapped file on generated sources and diffed "
                    "list by list; the property is also evaluated directly on the implementation's dump against an independent "
-                   "python reading of the source."),
+                   "python reading of the source — including sources with rows without a code (script and rule-based phrase encoder), "
+                   "a stem column (reverse keys text+\\x1fstem, LookupStems), a preset vocabulary with max_phrase_length / "
+                   "min_phrase_weight, and packs (own tables over the primary syllabary, also recompiled after a pack was edited)."),
     "level_note": ("Trusted: Lean kernel; yaml-cpp for the header (column map / sort / import_tables are handed to the model), "
                    "marisa-trie (string ids <-> strings), libstdc++ stod / libm log (the monotone cast W -> float is applied by "
                    "the check with the same libm), the harness under ASan+UBSan. Outside the theorems: validity of raw C++ "
                    "pointers across MappedFile::Allocate when the file grows (a runtime matter the offset model cannot exhibit) "
-                   "— the generator forces growth and the monitor sees the effect; rows without a code and preset vocabulary "
-                   "(phrase encoder), stem column, packs; byte-level layout of the tree in the arena (only allocate/OffsetPtr "
-                   "laws are proved)."),
+                   "— the generator forces growth and the monitor sees the effect; the phrase encoders (rows without a code, "
+                   "preset-vocabulary phrases: ScriptEncoder / TableEncoder with rules, exclude_patterns, tail_anchor), the weight a "
+                   "preset vocabulary lends to rows without one, the stem column and the filtering of a pack's rows by the primary "
+                   "syllabary are read by an independent python reference (checks/c06_ext.py) that is compared with the real compiler on "
+                   "every such source; the Lean model takes the CreateEntry calls that reference derives and builds / enumerates / "
+                   "reverse-indexes them as it does explicit rows (packs: a case of their own over the fixed syllabary); byte-level "
+                   "layout of the tree in the arena (only allocate/OffsetPtr laws are proved)."),
     "design_ref": "DESIGN.md §3 C06, §2 M-arena",
 }
 
@@ -31,7 +39,7 @@ SRC_FILES = ["src/rime/dict/dict_compiler.cc", "src/rime/dict/entry_collector.cc
              "src/rime/dict/table.cc", "src/rime/dict/table.h", "src/rime/dict/mapped_file.cc", "src/rime/dict/mapped_file.h",
              "src/rime/dict/string_table.cc", "src/rime/dict/reverse_lookup_dictionary.cc", "src/rime/dict/dict_settings.cc",
              "src/rime/algo/strings.cc", "src/rime/algo/encoder.cc"]
-GEN_VERSION = 1
+GEN_VERSION = 2
 DBL_EPSILON = 2.220446049250313e-16
 DBL_MIN = 2.2250738585072014e-308
 WS = b" \t\n\v\f\r"
@@ -41,25 +49,57 @@ WS = b" \t\n\v\f\r"
 # file = {"fname": str, "columns": [..] | None, "sort": str | None, "body": bytes}
 
 
-def header_text(case, f, main):
-    h = "# Rime dictionary (generated)\n---\nname: %s\nversion: \"1\"\n" % f["fname"]
+def pack_name(case, k):
+    return "%s_p%d" % (case["name"], k)
+
+
+def vocab_name(case):
+    return "%s_voc" % case["name"]
+
+
+def header_text(case, f, main, fname=None):
+    h = "# Rime dictionary (generated)\n---\nname: %s\nversion: \"1\"\n" % (fname or f["fname"])
     if f.get("sort"):
         h += "sort: %s\n" % f["sort"]
     if f.get("columns") is not None:
         h += "columns:\n" + "".join("  - %s\n" % x for x in f["columns"])
-    if main and len(case["files"]) > 1:
+    if f.get("cfg"):
+        h += X.cfg_yaml(f["cfg"], vocab_name(case))
+    if main and fname is None and len(case["files"]) > 1:
         h += "import_tables:\n" + "".join("  - %s\n" % g["fname"] for g in case["files"][1:])
     if f.get("extra_header"):
         h += f["extra_header"]
     return h + "...\n"
 
 
-def write_case(d, case):
+def write_case(d, case, packs_key="packs"):
     os.makedirs(d, exist_ok=True)
     for i, f in enumerate(case["files"]):
         with open(os.path.join(d, f["fname"] + ".dict.yaml"), "wb") as o:
             o.write(header_text(case, f, i == 0).encode())
             o.write(f["body"])
+    for k, pk in enumerate(case.get(packs_key) or case.get("packs") or []):
+        pth = os.path.join(d, pack_name(case, k) + ".dict.yaml")
+        if pk is None:
+            if os.path.exists(pth):
+                os.remove(pth)
+            continue
+        with open(pth, "wb") as o:
+            o.write(header_text(case, pk, True, pack_name(case, k)).encode())
+            o.write(pk["body"])
+    if case.get("vocab") is not None:
+        with open(os.path.join(d, vocab_name(case) + ".txt"), "wb") as o:
+            o.write(case["vocab"])
+    ep = os.path.join(d, "essay.txt")
+    if not os.path.exists(ep):
+        with open(ep, "wb") as o:
+            o.write(X.essay_body())
+
+
+def is_ext(case):
+    """the source uses what only the extended reference reads: options in the header, a stem column, packs, rows without a code"""
+    return bool(case.get("ext") or case.get("packs") is not None or case.get("vocab") is not None or str(case.get("profile", "")).startswith("ext_")
+                or any(f.get("cfg") or "stem" in (f.get("columns") or []) for f in case["files"]))
 
 
 def cols_of(f):
@@ -74,8 +114,15 @@ def case_to_json(case):
     out = {"name": case["name"], "files": []}
     if case.get("before"):
         out["before"] = case_to_json({"name": case["name"], "files": case["before"]})["files"]
+    if is_ext(case):
+        out["profile"] = case.get("profile") if str(case.get("profile", "")).startswith("ext_") else "ext_replay"
+    for key in ("packs", "packs_before"):
+        if case.get(key) is not None:
+            out[key] = [None if pk is None else case_to_json({"name": "-", "files": [dict(pk, fname="-")]})["files"][0] for pk in case[key]]
+    if case.get("vocab") is not None:
+        out["vocab_hex"] = case["vocab"].hex()
     for f in case["files"]:
-        g = {k: f[k] for k in ("fname", "columns", "sort") if k in f}
+        g = {k: f[k] for k in ("fname", "columns", "sort", "cfg") if k in f}
         try:
             s = f["body"].decode("utf-8")
             if s.encode("utf-8") == f["body"] and "\r" not in s and "\x0b" not in s and "\x0c" not in s:
@@ -90,8 +137,18 @@ def case_to_json(case):
 
 def case_from_json(j):
     case = {"name": j["name"], "files": []}
+    if j.get("profile"):
+        case["profile"] = j["profile"]
+        case["ext"] = str(j["profile"]).startswith("ext_")
+    for key in ("packs", "packs_before"):
+        if j.get(key) is not None:
+            case[key] = [None if pk is None else case_from_json({"name": "-", "files": [pk]})["files"][0] for pk in j[key]]
+    if j.get("vocab_hex") is not None:
+        case["vocab"] = bytes.fromhex(j["vocab_hex"])
     for g in j["files"]:
         f = {"fname": g["fname"], "columns": g.get("columns"), "sort": g.get("sort")}
+        if g.get("cfg"):
+            f["cfg"] = g["cfg"]
         f["body"] = g["body"].encode("utf-8") if "body" in g else bytes.fromhex(g["body_hex"])
         case["files"].append(f)
     if j.get("before"):
@@ -411,6 +468,40 @@ def ref_rows(case):
     return sorted(syl), rows, need, nent
 
 
+def bits_of(w):
+    return stored_bits(X.clamp(w))
+
+
+def reference(case):
+    """what the tables must hold -> {"syl", "rows" [(text, [syl], float bits)], "nent", "stems", "rules", "name", "packs" [same | None],
+    "sims"}.  Plain sources are read by ref_rows above; sources with rows without a code, a stem column, header options or packs by
+    the collector / encoder reading in c06_ext."""
+    if not is_ext(case):
+        syl, rows, need, nent = ref_rows(case)
+        return {"syl": syl, "rows": [(t, c, stored_bits(eff_weight(ws))) for t, c, ws in rows], "nent": nent, "stems": {}, "rules": None,
+                "packs": [], "derived": 0, "need": need}
+    cfg = case["files"][0].get("cfg") or {}
+    vb = None
+    if X.uses_vocab(cfg):
+        vb = case.get("vocab") if cfg.get("vocabulary") else X.essay_body()
+    sim = X.simulate(case["files"], cfg, vb)
+    syl = sorted(sim.syl)
+    out = {"syl": syl, "rows": [(t, c, bits_of(w)) for t, c, w, _ in sim.entries if c], "nent": sim.nent, "stems": sim.stems,
+           "rules": len(cfg["rules"]) if isinstance(cfg.get("rules"), list) else None, "packs": [], "sim": sim, "need": 0,
+           "derived": sum(1 for e in sim.entries if e[3]), "vocab": vb is not None,
+           "encode_failures": sim.encode_failures, "dfs_limit_hits": sim.dfs_limit_hits}
+    for pk in case.get("packs") or []:
+        if pk is None:
+            out["packs"].append(None)
+            continue
+        ps = X.simulate([pk], pk.get("cfg") or {}, None, fixed=syl)
+        out["packs"].append({"syl": syl, "rows": [(t, c, bits_of(w)) for t, c, w, _ in ps.entries if c], "nent": ps.nent, "sim": ps,
+                             "original": pk.get("sort") == "original", "derived": sum(1 for e in ps.entries if e[3])})
+        out["derived"] += out["packs"][-1]["derived"]
+        out["encode_failures"] += ps.encode_failures
+    return out
+
+
 # ------------------------------------------------------------------------------------------------ running both sides
 def parse_impl(out):
     """harness output -> {name: dict}"""
@@ -418,13 +509,16 @@ def parse_impl(out):
     for line in out.splitlines():
         p = line.split(" ")
         if p[0] == "case" and len(p) == 2:
-            cur = {"name": p[1], "syl": {}, "e": [], "r": [], "done": False, "flags": {}}
+            cur = top = {"name": p[1], "syl": {}, "e": [], "r": [], "done": False, "flags": {}, "packs": []}
             res[p[1]] = cur
         elif cur is None:
             continue
         elif p[0] == "end":
-            cur["done"] = True
+            top["done"] = True
             cur = None
+        elif p[0] == "pack" and len(p) == 3:
+            cur = {"name": p[2], "syl": {}, "e": [], "r": [], "flags": {}}
+            top["packs"].append(cur)
         elif p[0] == "syl":
             cur["syl"][int(p[1])] = unhex(p[2])
         elif p[0] == "e":
@@ -433,8 +527,10 @@ def parse_impl(out):
             cur["r"].append((unhex(p[1]), unhex(p[2])))
         elif p[0] in ("compile", "load", "rload", "rl"):
             cur["flags"][p[0]] = int(p[1])
-        elif p[0] in ("size", "meta", "walk", "qp", "sizes", "layout", "tmaps"):
+        elif p[0] in ("size", "meta", "walk", "qp", "sizes", "layout", "tmaps", "rs"):
             cur["flags"][p[0]] = tuple(int(x) for x in p[1:])
+        elif p[0] == "ds" and len(p) == 5:
+            cur["flags"]["ds"] = (int(p[1]), int(p[2]), int(p[3]), unhex(p[4]))
         elif p[0] == "corrupt":
             cur["flags"]["corrupt"] = " ".join(p[1:])
     return res
@@ -473,12 +569,46 @@ def ids(s):
     return () if s == "-" else tuple(int(x) for x in s.split(","))
 
 
-def model_input(case):
-    o = ["case %s" % case["name"], "sort %s" % (case["files"][0].get("sort") or "by_weight")]
-    for f in case["files"]:
-        tc, cc, wc = cols_of(f)
-        o.append("file %d %d %d %s" % (tc, cc, wc, f["body"].hex() or "-"))
-    o.append("run")
+def synth_body(calls):
+    """CreateEntry calls as rows in the default layout (comments off; an empty weight column is written `0`: same stored weight)"""
+    return b"# no comment\n" + b"".join(t + b"\t" + cs + b"\t" + w + b"\n" for t, cs, w in calls)
+
+
+def resolved(w):
+    return b"inf" if w == math.inf else repr(w).encode() if w > 0 else b"0"
+
+
+def model_input(case, ref=None):
+    """plain source: the files.  Extended source: the files, then (`derived`) the CreateEntry calls the reference encoder makes in
+    Finish; with a preset vocabulary (weights looked up there) every call with its resolved weight instead of the files.  A pack is a
+    case of its own (`<name>.p<k>`) over the fixed syllabary."""
+    if not is_ext(case):
+        o = ["case %s" % case["name"], "sort %s" % (case["files"][0].get("sort") or "by_weight")]
+        for f in case["files"]:
+            tc, cc, wc = cols_of(f)
+            o.append("file %d %d %d %s" % (tc, cc, wc, f["body"].hex() or "-"))
+        o.append("run")
+        return "\n".join(o) + "\n"
+    ref = ref or reference(case)
+    o = []
+
+    def one(name, sort, files, sim, vocab, fixed):
+        o.append("case %s" % name)
+        o.append("sort %s" % (sort or "by_weight"))
+        if fixed is not None:
+            o.append("fixed %s" % (",".join(x.hex() for x in fixed) or "-"))
+        if vocab:
+            o.append("derived %s" % synth_body([(t, cs, resolved(w)) for t, cs, ws, w, ph in sim.calls]).hex())
+        else:
+            for f in files:
+                tc, cc, wc = cols_of(f)
+                o.append("file %d %d %d %s" % (tc, cc, wc, f["body"].hex() or "-"))
+            o.append("derived %s" % synth_body([(t, cs, ws or b"0") for t, cs, ws, w, ph in sim.calls if ph != "collect"]).hex())
+        o.append("run")
+    one(case["name"], case["files"][0].get("sort"), case["files"], ref["sim"], ref.get("vocab"), None)
+    for k, pk in enumerate(case.get("packs") or []):
+        if pk is not None:
+            one("%s.p%d" % (case["name"], k), pk.get("sort"), [pk], ref["packs"][k]["sim"], False, ref["syl"])
     return "\n".join(o) + "\n"
 
 
@@ -488,6 +618,11 @@ def model_bits(tok):
     if tok == "inf":
         return f32bits(math.inf)
     return stored_bits(float(tok))
+
+
+def pack_arg(case):
+    pk = case.get("packs")
+    return "@" + ",".join(pack_name(case, k) for k in range(len(pk))) if pk else ""
 
 
 class Runner:
@@ -516,13 +651,13 @@ class Runner:
         earlier = [case for case in cases if case.get("before")]
         if earlier:
             for case in earlier:
-                write_case(d, {"name": case["name"], "files": case["before"]})
-            vlib.sh([exe, d] + [case["name"] for case in earlier], env=vlib.SAN_ENV, timeout=3600)
+                write_case(d, dict(case, files=case["before"]), "packs_before")
+            vlib.sh([exe, d] + [case["name"] + pack_arg(case) for case in earlier], env=vlib.SAN_ENV, timeout=3600)
             self.harness_runs += 1
         for case in cases:
             write_case(d, case)
         names = [case["name"] for case in cases]
-        arg_of = {case["name"]: ("+" if case.get("before") else "") + case["name"] for case in cases}
+        arg_of = {case["name"]: ("+" if case.get("before") else "") + case["name"] + pack_arg(case) for case in cases}
         res, logs, todo = {}, {}, list(names)
         single = False
         while todo:
@@ -551,7 +686,7 @@ class Runner:
                 n = todo[0]
                 if single or len(batch) == 1 or (n in got and not got[n]["done"]):
                     # this very case kills the harness
-                    r = got.get(n) or {"name": n, "syl": {}, "e": [], "r": [], "done": False, "flags": {}}
+                    r = got.get(n) or {"name": n, "syl": {}, "e": [], "r": [], "done": False, "flags": {}, "packs": []}
                     r["crash"] = (rc, out[-3000:])
                     res[n] = r
                     todo.remove(n)
@@ -566,9 +701,9 @@ class Runner:
         shutil.rmtree(d, ignore_errors=True)
         return res, sizes
 
-    def model(self, cases):
+    def model(self, cases, refs=None):
         t0 = time.time()
-        out = vlib.run_driver("driver_c06", "".join(model_input(case) for case in cases))
+        out = vlib.run_driver("driver_c06", "".join(model_input(case, (refs or {}).get(case["name"])) for case in cases))
         self.model_s += time.time() - t0
         return parse_model(out)
 
@@ -578,14 +713,69 @@ def close(a, b):
     return abs(okey(a) - okey(b)) <= 1
 
 
-def monitor(case, im, tsize):
+def table_clauses(syl, rows, imt, sort_original, bad, what=""):
+    """one loaded table against the rows it must hold; appends (clause, detail); returns {code: [(text, bits)]} wanted or None"""
+    fl = imt["flags"]
+    isyl = [imt["syl"].get(i) for i in range(len(imt["syl"]))]
+    if isyl != syl:
+        bad.append(("syllabary", "%ssyllabary differs: impl %d entries, source %d" % (what, len(isyl), len(syl))))
+        return None
+    sid = {s: i for i, s in enumerate(syl)}
+    want = {}
+    for text, code, bits in rows:
+        want.setdefault(tuple(sid[s] for s in code), []).append((text, bits))
+    got = {}
+    for idx, extra, text, bits in imt["e"]:
+        if len(idx) > 3 or (extra and len(idx) != 3):
+            bad.append(("rows", "%sentry filed under index code %s with extra %s" % (what, idx, extra)))
+        got.setdefault(idx + extra, []).append((text, bits))
+    for code in sorted(set(want) | set(got)):
+        w, g = want.get(code, []), got.get(code, [])
+        if sorted(t for t, _ in w) != sorted(t for t, _ in g):
+            cw, cg = {}, {}
+            for t, _ in w:
+                cw[t] = cw.get(t, 0) + 1
+            for t, _ in g:
+                cg[t] = cg.get(t, 0) + 1
+            lost = sorted(t for t in cw if cw[t] > cg.get(t, 0))
+            extra = sorted(t for t in cg if cg[t] > cw.get(t, 0))
+            bad.append(("rows", "%scode %s: source has %d entries, table %d; lost %s invented %s (text: times in source/table)" %
+                        (what, [syl[i].decode("latin-1") if 0 <= i < len(syl) else i for i in code], len(w), len(g),
+                         ["%s: %d/%d" % (t.decode("utf-8", "replace"), cw[t], cg.get(t, 0)) for t in lost[:3]],
+                         ["%s: %d/%d" % (t.decode("utf-8", "replace"), cw.get(t, 0), cg[t]) for t in extra[:3]])))
+            continue
+        ws_, gs_ = sorted(w), sorted(g)
+        if any(a[0] != b[0] or not close(a[1], b[1]) for a, b in zip(ws_, gs_)):
+            bad.append(("weight", "%scode %s: weights differ beyond float precision: %s vs %s" % (what, code, ws_[:4], gs_[:4])))
+            continue
+        if sort_original:
+            if [t for t, _ in g] != [t for t, _ in w]:
+                bad.append(("order", "%scode %s: sort: original but enumeration order differs from the source order" % (what, code,)))
+        else:
+            ks = [okey(b) for _, b in g]
+            if any(ks[i] < ks[i + 1] for i in range(len(ks) - 1)):
+                bad.append(("order", "%scode %s: weights not non-increasing: %s" % (what, code, [hex(b) for _, b in g][:8])))
+    if "walk" in fl and fl["walk"][1] != 1:
+        bad.append(("walk", "%swalking with TableQuery (as rime_table_decompiler) yields other rows than the index holds" % what))
+    if "qp" in fl and fl["qp"][1] != 0:
+        bad.append(("query", "%sTable::QueryPhrases disagrees with the index on %d codes" % (what, fl["qp"][1])))
+    return want
+
+
+def monitor(case, im, tsize, ref=None):
     """the property on the implementation's dump vs the python reading of the source -> list of (clause, detail)"""
-    syl, rows, need, nent = ref_rows(case)
+    ref = ref or reference(case)
+    syl, rows, nent = ref["syl"], ref["rows"], ref["nent"]
     sort_original = (case["files"][0].get("sort") == "original")
     bad = []
     est = 4096 + 32 * len(syl) + 64 * nent
     grew = tsize is not None and tsize > est
     info = {"syllables": len(syl), "rows": len(rows), "estimate": est, "table_file": tsize, "grew": grew}
+    if is_ext(case):
+        info.update({"derived": ref["derived"], "packs": sum(1 for p in ref["packs"] if p), "stem_keys": len(ref["stems"]),
+                     "encode_failures": ref.get("encode_failures", 0), "dfs_limit_hits": ref.get("dfs_limit_hits", 0),
+                     "vocabulary": bool(ref.get("vocab")), "rules": ref["rules"] or 0,
+                     "pack_rows": sum(len(p["rows"]) for p in ref["packs"] if p)})
     if "crash" in im:
         log = im["crash"][1]
         m = re.search(r"SUMMARY: .*", log)
@@ -604,55 +794,17 @@ def monitor(case, im, tsize):
     if "corrupt" in fl:
         bad.append(("corrupt", "a link of the loaded table leaves the file image at %s" % fl["corrupt"]))
         return bad, info
-    isyl = [im["syl"].get(i) for i in range(len(im["syl"]))]
-    if isyl != syl:
-        bad.append(("syllabary", "syllabary differs: impl %d entries, source %d" % (len(isyl), len(syl))))
+    want = table_clauses(syl, rows, im, sort_original, bad)
+    if want is None:
         return bad, info
-    sid = {s: i for i, s in enumerate(syl)}
-    want = {}
-    for text, code, ws in rows:
-        want.setdefault(tuple(sid[s] for s in code), []).append((text, stored_bits(eff_weight(ws))))
-    got = {}
-    for idx, extra, text, bits in im["e"]:
-        if len(idx) > 3 or (extra and len(idx) != 3):
-            bad.append(("rows", "entry filed under index code %s with extra %s" % (idx, extra)))
-        got.setdefault(idx + extra, []).append((text, bits))
-    for code in sorted(set(want) | set(got)):
-        w, g = want.get(code, []), got.get(code, [])
-        if sorted(t for t, _ in w) != sorted(t for t, _ in g):
-            cw, cg = {}, {}
-            for t, _ in w:
-                cw[t] = cw.get(t, 0) + 1
-            for t, _ in g:
-                cg[t] = cg.get(t, 0) + 1
-            lost = sorted(t for t in cw if cw[t] > cg.get(t, 0))
-            extra = sorted(t for t in cg if cg[t] > cw.get(t, 0))
-            bad.append(("rows", "code %s: source has %d entries, table %d; lost %s invented %s (text: times in source/table)" %
-                        ([syl[i].decode("latin-1") if 0 <= i < len(syl) else i for i in code], len(w), len(g),
-                         ["%s: %d/%d" % (t.decode("utf-8", "replace"), cw[t], cg.get(t, 0)) for t in lost[:3]],
-                         ["%s: %d/%d" % (t.decode("utf-8", "replace"), cw.get(t, 0), cg[t]) for t in extra[:3]])))
-            continue
-        ws_, gs_ = sorted(w), sorted(g)
-        if any(a[0] != b[0] or not close(a[1], b[1]) for a, b in zip(ws_, gs_)):
-            bad.append(("weight", "code %s: weights differ beyond float precision: %s vs %s" % (code, ws_[:4], gs_[:4])))
-            continue
-        if sort_original:
-            if [t for t, _ in g] != [t for t, _ in w]:
-                bad.append(("order", "code %s: sort: original but enumeration order differs from the source order" % (code,)))
-        else:
-            ks = [okey(b) for _, b in g]
-            if any(ks[i] < ks[i + 1] for i in range(len(ks) - 1)):
-                bad.append(("order", "code %s: weights not non-increasing: %s" % (code, [hex(b) for _, b in g][:8])))
-    if "walk" in fl and fl["walk"][1] != 1:
-        bad.append(("walk", "walking with TableQuery (as rime_table_decompiler) yields other rows than the index holds"))
-    if "qp" in fl and fl["qp"][1] != 0:
-        bad.append(("query", "Table::QueryPhrases disagrees with the index on %d codes" % fl["qp"][1]))
-    # reverse lookup
+    # reverse lookup: a text -> its one-syllable codes; text + "\x1fstem" -> the stems the source gives it
     rwant = {}
-    for text, code, ws in rows:
+    for text, code, bits in rows:
         if len(code) == 1:
             rwant.setdefault(text, set()).add(code[0])
     rwant = {k: b" ".join(sorted(v)) for k, v in rwant.items()}
+    for text, st in ref["stems"].items():
+        rwant[text + X.STEM_SUFFIX] = b" ".join(sorted(st))
     if not fl.get("rload"):
         bad.append(("reverse", "reverse db does not load"))
     else:
@@ -667,6 +819,39 @@ def monitor(case, im, tsize):
                         (len(d), d[0].hex(), rgot.get(d[0]), rwant.get(d[0]))))
         if fl.get("rl"):
             bad.append(("reverse", "ReverseDb::Lookup disagrees with the stored index"))
+        if "rs" in fl:
+            if not fl["rs"][0]:
+                bad.append(("reverse", "ReverseLookupDictionary::Load fails on the reverse db that ReverseDb::Load accepts"))
+            elif fl["rs"][1]:
+                bad.append(("reverse", "ReverseLookupDictionary::ReverseLookup / LookupStems disagree with the stored index for %d keys" % fl["rs"][1]))
+            elif fl["rs"][2]:
+                bad.append(("reverse", "%d texts that are no key of the reverse db have a reverse entry" % fl["rs"][2]))
+        if "ds" in fl and fl.get("rs", (0,))[0]:
+            ds = fl["ds"]
+            if ref["rules"] is not None and (not ds[0] or not ds[1] or ds[2] != ref["rules"] or ds[3] != case["name"].encode()):
+                bad.append(("reverse-settings", "dictionary settings read back from the reverse db: present %d, rule-based %d, %d rules, name %r; "
+                            "the header has %d rules" % (ds[0], ds[1], ds[2], ds[3], ref["rules"])))
+    # packs: each listed pack with a source has its own table over the primary syllabary; one without a source has none
+    # (a primary source without any syllable does not compile — BuildPrism refuses an empty syllabary — and its packs are never reached)
+    for k, pr in enumerate(ref["packs"] if syl else []):
+        imp = im["packs"][k] if k < len(im.get("packs", [])) else None
+        what = "pack %d: " % k
+        if imp is None:
+            bad.append(("pack", what + "no dump"))
+            continue
+        if pr is None:
+            if imp["flags"].get("load"):
+                bad.append(("pack", what + "a table exists for a pack that has no source"))
+            continue
+        if not imp["flags"].get("load"):
+            bad.append(("pack", what + "the pack's table does not load"))
+            continue
+        if "corrupt" in imp["flags"]:
+            bad.append(("pack", what + "a link of the loaded table leaves the file image at %s" % imp["flags"]["corrupt"]))
+            continue
+        pb = []
+        table_clauses(syl, pr["rows"], imp, pr["original"], pb, what)
+        bad.extend(("pack", "%s: %s" % (cl, de)) for cl, de in pb)
     info["codes"] = len(want)
     info["long_codes"] = sum(1 for k in want if len(k) > 3)
     info["homophone_lists"] = sum(1 for v in want.values() if len(v) > 1)
@@ -688,7 +873,27 @@ def correspond_capacity(im, mo, tsize):
     return []
 
 
-def correspond(case, im, mo):
+def lists_differ(imt, mot, sort_original, bad, what=""):
+    a, b = {}, {}
+    for idx, extra, text, bits in imt["e"]:
+        a.setdefault((idx, bool(extra)), []).append((extra, text, bits))
+    for idx, extra, text, tok in mot["e"]:
+        b.setdefault((idx, bool(extra)), []).append((extra, text, model_bits(tok)))
+    for idx in sorted(set(a) | set(b)):
+        x, y = a.get(idx, []), b.get(idx, [])
+        if sort_original:
+            same = len(x) == len(y) and all(p[:2] == q[:2] and close(p[2], q[2]) for p, q in zip(x, y))
+        else:
+            xs, ys = sorted(x), sorted(y)
+            same = len(xs) == len(ys) and all(p[:2] == q[:2] and close(p[2], q[2]) for p, q in zip(xs, ys))
+            ks = [okey(t[2]) for t in y]
+            if any(ks[i] < ks[i + 1] for i in range(len(ks) - 1)):
+                bad.append(("model-order", "%smodel list %s not weight-sorted" % (what, idx,)))
+        if not same:
+            bad.append(("list", "%slist at index code %s: impl %s model %s" % (what, idx, x[:3], y[:3])))
+
+
+def correspond(case, im, mo, mos=None):
     """model vs implementation, list by list -> list of (clause, detail)"""
     if mo is None or not mo["done"]:
         return [("model-missing", "driver printed nothing for this case")]
@@ -700,30 +905,29 @@ def correspond(case, im, mo):
     if [im["syl"].get(i) for i in range(len(im["syl"]))] != [mo["syl"].get(i) for i in range(len(mo["syl"]))]:
         return [("syllabary", "model and implementation syllabaries differ")]
     sort_original = (case["files"][0].get("sort") == "original")
-    a, b = {}, {}
-    for idx, extra, text, bits in im["e"]:
-        a.setdefault((idx, bool(extra)), []).append((extra, text, bits))
-    for idx, extra, text, tok in mo["e"]:
-        b.setdefault((idx, bool(extra)), []).append((extra, text, model_bits(tok)))
-    for idx in sorted(set(a) | set(b)):
-        x, y = a.get(idx, []), b.get(idx, [])
-        if sort_original:
-            same = len(x) == len(y) and all(p[:2] == q[:2] and close(p[2], q[2]) for p, q in zip(x, y))
-        else:
-            xs, ys = sorted(x), sorted(y)
-            same = len(xs) == len(ys) and all(p[:2] == q[:2] and close(p[2], q[2]) for p, q in zip(xs, ys))
-            ks = [okey(t[2]) for t in y]
-            if any(ks[i] < ks[i + 1] for i in range(len(ks) - 1)):
-                bad.append(("model-order", "model list %s not weight-sorted" % (idx,)))
-        if not same:
-            bad.append(("list", "list at index code %s: impl %s model %s" % (idx, x[:3], y[:3])))
+    lists_differ(im, mo, sort_original, bad)
     if "sizes" in im["flags"] and im["flags"]["sizes"] != mo.get("sizes"):
         bad.append(("record-sizes", "sizeof/alignof of the table records: headers %s, layout model %s" % (im["flags"]["sizes"], mo.get("sizes"))))
     if "layout" in im["flags"] and mo.get("layout") and im["flags"]["layout"][0] != mo["layout"][0]:
         bad.append(("index-end", "the index ends at byte %d of the table file, the model's allocation sequence at %d" %
                     (im["flags"]["layout"][0], mo["layout"][0])))
-    if im["flags"].get("rload") and sorted(im["r"]) != sorted(mo["r"]):
-        bad.append(("reverse", "reverse tables differ: impl %d keys, model %d" % (len(im["r"]), len(mo["r"]))))
+    if im["flags"].get("rload"):
+        stem = [kv for kv in im["r"] if kv[0].endswith(X.STEM_SUFFIX)]          # (the stem keys are not in the model's reverse table)
+        if sorted(kv for kv in im["r"] if kv not in stem) != sorted(mo["r"]):
+            bad.append(("reverse", "reverse tables differ: impl %d keys, model %d" % (len(im["r"]) - len(stem), len(mo["r"]))))
+    for k, pk in enumerate(case.get("packs") or []):
+        if pk is None or k >= len(im.get("packs", [])):
+            continue
+        imp, mp = im["packs"][k], (mos or {}).get("%s.p%d" % (case["name"], k))
+        if not imp["flags"].get("load") or "corrupt" in imp["flags"]:
+            continue
+        if mp is None or not mp["done"] or mp["unsupported"]:
+            bad.append(("pack-model-missing", "driver printed no table for pack %d: %s" % (k, mp and mp["unsupported"])))
+            continue
+        lists_differ(imp, mp, pk.get("sort") == "original", bad, "pack %d: " % k)
+        if "layout" in imp["flags"] and mp.get("layout") and imp["flags"]["layout"][0] != mp["layout"][0]:
+            bad.append(("index-end", "pack %d: the index ends at byte %d of the table file, the model's allocation sequence at %d" %
+                        (k, imp["flags"]["layout"][0], mp["layout"][0])))
     return bad
 
 
@@ -732,8 +936,12 @@ def all_lines(case):
     return [(fi, l) for fi, f in enumerate(case["files"]) for l in f["body"].split(b"\n")]
 
 
+EXT_KEYS = ("packs", "packs_before", "vocab", "profile", "ext")
+
+
 def with_lines(case, lines):
     out = {"name": case["name"], "files": []}
+    out.update({k: case[k] for k in EXT_KEYS if k in case})
     for fi, f in enumerate(case["files"]):
         g = dict(f)
         g["body"] = b"\n".join(l for i, l in lines if i == fi)
@@ -785,12 +993,12 @@ def shrink(run, case, clause, budget, flavour="san"):
     best = with_lines(case, lines)
     # drop import files that became empty
     if len(best["files"]) > 1:
-        cand = {"name": best["name"], "files": [best["files"][0]] + [f for f in best["files"][1:] if f["body"].strip()]}
+        cand = dict(best, files=[best["files"][0]] + [f for f in best["files"][1:] if f["body"].strip()])
         if len(cand["files"]) < len(best["files"]) and fails(json_copy(cand)):
             best = cand
     # a dictionary that only imports: promote the single import
     if len(best["files"]) == 2 and not best["files"][0]["body"].strip():
-        cand = {"name": best["name"], "files": [dict(best["files"][1], sort=best["files"][0].get("sort"))]}
+        cand = dict(best, files=[dict(best["files"][1], sort=best["files"][0].get("sort"), cfg=best["files"][0].get("cfg"))])
         if fails(json_copy(cand)):
             best = cand
     # structured reductions: fewer syllables per code, shorter texts
@@ -827,6 +1035,7 @@ def shrink(run, case, clause, budget, flavour="san"):
 
 def json_copy(case):
     out = {"name": case["name"], "files": [dict(f) for f in case["files"]]}
+    out.update({k: case[k] for k in EXT_KEYS if k in case})
     if case.get("before"):
         out["before"] = [dict(f) for f in case["before"]]
     return out
@@ -866,6 +1075,18 @@ def plan(c):
     pool = [cs for cs in cases if cs["profile"] in ("tiny", "small", "deep", "homophones", "medium")]
     for j, cs in enumerate(c.rng.sample(pool, min(len(pool), 40 if quick else 300))):
         cases.append(edited_case(c.rng, cs, "e%d" % j))
+    # sources that reach the rest of the compiler: rows without a code (script / rule-based phrase encoder), a stem column, a preset
+    # vocabulary with its filters, packs (own tables over the primary syllabary), a pack edited and compiled again
+    ext = ([("script", 60), ("table", 90), ("vocab", 50), ("packs", 50), ("stems", 30), ("mixed", 60)] if quick else
+           [("script", 500), ("table", 800), ("vocab", 400), ("packs", 400), ("stems", 250), ("mixed", 600)])
+    k = 0
+    for kind, n in ext:
+        for _ in range(n):
+            k += 1
+            cases.append(X.gen_ext_case(c.rng, "x%d" % k, kind))
+    withp = [cs for cs in cases if cs.get("packs") and any(cs["packs"])]
+    for j, cs in enumerate(c.rng.sample(withp, min(len(withp), 25 if quick else 200))):
+        cases.append(X.pack_edit_case(c.rng, cs, "xe%d" % j))
     return cases
 
 
@@ -884,7 +1105,9 @@ def run(c):
     stats = {"cases": 0, "rows": 0, "entries_compared": 0, "grew": 0, "by_profile": {}, "long_codes": 0, "homophone_lists": 0,
              "reverse_keys": 0, "imports": 0, "sort_original": 0, "impl_failures": 0, "model_impl_disagreements": 0,
              "crashes": 0, "plain_flavour_cases": 0, "capacity_checks": 0, "max_rows": 0, "max_syllables": 0, "unsupported_by_model": 0, "shrink_evals": 0,
-             "columns_layouts": {}, "decompiler_walks": 0, "query_phrases_calls": 0}
+             "columns_layouts": {}, "decompiler_walks": 0, "query_phrases_calls": 0,
+             "ext_cases": 0, "derived_entries": 0, "rule_based_cases": 0, "vocabulary_cases": 0, "packs_compiled": 0, "pack_rows": 0,
+             "stem_keys": 0, "encode_failures": 0, "dfs_limit_hits": 0, "dict_settings_read_back": 0}
     nontrivial = set()
     samples = []
     failing, disagreeing = [], []
@@ -899,15 +1122,28 @@ def run(c):
             cur, cur_rows = [], 0
     if cur:
         batches.append(cur)
-    models = {}
+    models, refs = {}, {}
     for batch in batches:
+        for case in batch:
+            refs[case["name"]] = reference(case)
         im, sizes = run_.impl(batch)
-        mo = run_.model(batch)
+        mo = run_.model(batch, refs)
         models.update(mo)
         for case in batch:
             n = case["name"]
-            bad, info = monitor(case, im[n], sizes[n])
-            kbad = correspond(case, im[n], mo.get(n))
+            bad, info = monitor(case, im[n], sizes[n], refs[n])
+            kbad = correspond(case, im[n], mo.get(n), mo)
+            if "derived" in info:
+                stats["ext_cases"] += 1
+                stats["derived_entries"] += info["derived"]
+                stats["rule_based_cases"] += 1 if info["rules"] else 0
+                stats["vocabulary_cases"] += 1 if info["vocabulary"] else 0
+                stats["packs_compiled"] += info["packs"]
+                stats["pack_rows"] += info["pack_rows"]
+                stats["stem_keys"] += info["stem_keys"]
+                stats["encode_failures"] += info["encode_failures"]
+                stats["dfs_limit_hits"] += info["dfs_limit_hits"]
+                stats["dict_settings_read_back"] += 1 if im[n]["flags"].get("ds", (0,))[0] else 0
             stats["cases"] += 1
             stats["rows"] += info["rows"]
             stats["entries_compared"] += len(im[n]["e"])
@@ -949,12 +1185,13 @@ def run(c):
         batch = plain_cases[k:k + 30]
         im, sizes = run_.impl(batch, "plain")
         for case in batch:
-            bad, info = monitor(case, im[case["name"]], sizes[case["name"]])
+            bad, info = monitor(case, im[case["name"]], sizes[case["name"]], refs.get(case["name"]))
             if bad:
                 stats["impl_failures"] += 1
                 info["flavour"] = "plain"
                 failing.append((case, bad, info))
-            elif not case.get("before"):     # (a recompilation that finds nothing changed maps nothing read-write)
+            elif not case.get("before") and not case.get("packs"):     # (a recompilation that finds nothing changed maps nothing
+                # read-write; the mappings of pack tables are in the same list)
                 kbad = correspond_capacity(im[case["name"]], models.get(case["name"]), sizes[case["name"]])
                 stats["capacity_checks"] += 1 if "tmaps" in im[case["name"]]["flags"] else 0
                 if kbad:
@@ -1022,9 +1259,11 @@ def run(c):
         "source_hash": vlib.source_hash(SRC_FILES), "gen_version": GEN_VERSION, "proof_failures": audit["failures"],
     })
     c.cov = cov
-    c.assumptions = ["every source row carries a code and use_preset_vocabulary is off (no phrase encoder)",
+    c.assumptions = ["the codes of rows without a code and of preset-vocabulary phrases are those the check's reading of the phrase "
+                     "encoders (ScriptEncoder, TableEncoder; checks/c06_ext.py) derives: that reading is python, compared with the real "
+                     "compiler on every such source, and handed to the Lean model as extra CreateEntry calls (the encoders are not in Lean)",
                      "weight column within the decimal / inf / nan syntax of strtod (no hexadecimal floats)",
-                     "texts and syllables contain no NUL, tab or newline; no stem column; no packs",
+                     "texts and syllables contain no NUL, tab or newline; texts of rows without a code are UTF-8",
                      "the monotone cast W -> float (double rounding, log, float cast) is libm's; compared within 1 ulp"]
 
 
@@ -1038,7 +1277,7 @@ def replay(c, r):
     n = case["name"]
     if r.get("kind") == "correspondence":
         mo = run_.model([case])
-        kbad = correspond(case, im[n], mo.get(n))
+        kbad = correspond(case, im[n], mo.get(n), mo)
         print("replay %s: correspondence -> %s" % (n, kbad[:3] or "ok"))
         return 1 if kbad else 0
     bad, info = monitor(case, im[n], sizes[n])
